@@ -34,13 +34,17 @@ def snapshot(root):
         rel = os.path.relpath(dp, root)
         if rel != '.':
             dirs.append(rel)
-        for f in sorted(fs):
+        links = [d for d in dn if os.path.islink(os.path.join(dp, d))]     # symlinked dirs are entries, not walked
+        for f in sorted(list(fs) + links):
             p = os.path.join(dp, f)
             r = os.path.relpath(p, root)
-            try:
-                b = open(p, 'rb').read()
-            except OSError:
-                b = b'<unreadable>'
+            if os.path.islink(p):
+                b = b'<symlink> ' + os.readlink(p).encode('utf-8', 'replace')
+            else:
+                try:
+                    b = open(p, 'rb').read()
+                except OSError:
+                    b = b'<unreadable>'
             h = hashlib.sha1(b).hexdigest()
             sha[r] = h
             txt = None
@@ -177,6 +181,10 @@ def materialise(bdir, case):
         os.makedirs(os.path.dirname(p), exist_ok=True)
         with open(p, 'w', encoding='utf-8', newline='') as f:
             f.write(content)
+    for rel, target in (case.get('links') or {}).items():
+        p = os.path.join(bdir, rel)
+        os.makedirs(os.path.dirname(p), exist_ok=True)
+        os.symlink(target, p)
 
 
 def run_case(work, idx, case, keep=False):
